@@ -95,11 +95,58 @@ def add_sync_mem(rng):
         return False
     m = pyrtl.MemBlock(4, 2, name='verif_sync', asynchronous=False)
     hi = WireVector(1, 'verif_sa_hi')
-    hi <<= rng.choice(srcs)[0]
     lo = WireVector(1, 'verif_sa_lo')
-    lo <<= rng.choice(srcs)[0]
+    if rng.random() < 0.5:
+        # reconvergent (but acyclic) index logic: both address bits come from one intermediate wire
+        s_ = rng.choice(srcs)
+        mid = WireVector(len(s_), 'verif_sa_mid')
+        mid <<= s_
+        hi <<= mid[len(s_) - 1]
+        lo <<= mid[0]
+    else:
+        hi <<= rng.choice(srcs)[0]
+        lo <<= rng.choice(srcs)[0]
     o = Output(4, 'verif_sync_out')
     o <<= m[pyrtl.concat(hi, lo)]
+    if rng.random() < 0.5:
+        o2 = Output(4, 'verif_sync_out2')
+        o2 <<= m[pyrtl.concat(lo, hi)]
+    return True
+
+
+def add_same_name_mems(rng):
+    """two memories that carry the same name (memories have their own name space; a helper called twice creates them)"""
+    blk = pyrtl.working_block()
+    srcs = sorted((w for w in blk.wirevector_subset((Input, pyrtl.Register)) if not w.name.startswith('verif_')), key=lambda w: w.name)
+    if not srcs:
+        return False
+    for j in range(2):
+        m = MemBlock(4, 2, 'verif_dup', asynchronous=True)
+        s_ = rng.choice(srcs)
+        a = s_[0:2] if len(s_) >= 2 else s_.zero_extended(2)
+        d_ = rng.choice(srcs)
+        d_ = d_[0:4] if len(d_) >= 4 else d_.zero_extended(4)
+        m[a] <<= MemBlock.EnabledWrite(d_, rng.choice(srcs)[0])
+        o = Output(4, 'verif_dup_out%d' % j)
+        o <<= m[a]
+    return True
+
+
+def add_wide_mem(rng):
+    """a memory whose address is as wide as a simulator's key type allows (33, 63 or 64 bits), with a write port"""
+    blk = pyrtl.working_block()
+    srcs = sorted((w for w in blk.wirevector_subset((Input, pyrtl.Register)) if not w.name.startswith('verif_')), key=lambda w: w.name)
+    if not srcs:
+        return False
+    aw = rng.choice([33, 63, 64, 64])
+    m = MemBlock(rng.choice([4, 70]), aw, 'verif_wide_mem', asynchronous=True)
+    cat = pyrtl.concat_list([rng.choice(srcs) for _ in range(3)])
+    addr = cat.zero_extended(aw) if len(cat) < aw else cat[:aw]
+    data = rng.choice(srcs)
+    data = data.zero_extended(m.bitwidth) if len(data) < m.bitwidth else data[:m.bitwidth]
+    m[addr] <<= MemBlock.EnabledWrite(data, rng.choice(srcs)[0])
+    o = Output(m.bitwidth, 'verif_wide_out')
+    o <<= m[addr]
     return True
 
 
@@ -335,6 +382,10 @@ def main(ctx):
                             name_style=('plain', 'verilog-nospace')[(k // 2) % 2])
         if k % 2 == 0 and add_sync_mem(rng):
             ctx.count('sync-memory', 'added')
+        if k % 4 == 0 and rng.random() < 0.5 and add_wide_mem(rng):
+            ctx.count('wide-address-memory', 'added')
+        if k % 4 == 0 and rng.random() < 0.5 and add_same_name_mems(rng):
+            ctx.count('same-name-memories', 'added')
         desc = d.describe()
         ser = Ser(d.block)
         replay0 = {'kind': 'design', 'block': ser.data}
@@ -342,6 +393,9 @@ def main(ctx):
         v = rejected_by(d.block, lambda b: b.sanity_check())
         if v != 'accepted':
             ctx.violation('api-built-rejected', 'sanity_check rejects an API-built design: %s' % v, replay0)
+            if len(ctx.violations) >= 6:
+                break
+            continue      # nothing below can be decided on a block the library refuses to copy or iterate
         sims = SIMS if k % 4 == 0 else SIMS[:2]
         for simcls in sims:
             v = rejected_by(d.block, construct(simcls))
@@ -374,6 +428,24 @@ def main(ctx):
             tie_bad += 1
             ctx.tie_only = getattr(ctx, 'tie_only', []) + [dict(replay0, model=mv)]
         good += 1
+        # (a') wires renamed through the API after construction, while an unrelated block is the working block:
+        # the design is as well formed as before
+        if k % 3 == 0:
+            b3 = pyrtl.copy_block(d.block, update_working_block=False)
+            other = pyrtl.Block()
+            with pyrtl.set_working_block(other, no_sanity_check=True):
+                ws = sorted((w for w in b3.wirevector_set if not isinstance(w, Const)), key=lambda w: w.name)
+                renamed = []
+                for w in rng.sample(ws, min(len(ws), 2)):
+                    renamed.append(w.name)
+                    w.name = 'verif_renamed_%d' % len(renamed)
+            ctx.count('renamed-after-construction', len(renamed))
+            v = rejected_by(b3, lambda b: b.sanity_check())
+            if v == 'accepted':
+                v = rejected_by(b3, construct(SIMS[0]))
+            if v != 'accepted':
+                ctx.violation('api-renamed-rejected', 'an API-built design whose wires %r were renamed (w.name = ...) while another block '
+                              'was the working block is rejected: %s' % (renamed, v), replay0)
         # (b) one fault of each class
         for fname, inject in FAULTS:
             b2 = pyrtl.copy_block(d.block, update_working_block=False)
@@ -381,7 +453,10 @@ def main(ctx):
                 # the block was checked (and simulated) while it was still well formed; the edit comes afterwards
                 b2.sanity_check()
                 if rng.random() < 0.5:
-                    construct(rng.choice(sims))(b2)
+                    try:
+                        construct(rng.choice(sims))(b2)
+                    except Exception:  # noqa  (a rejected well-formed design is reported above as api-built-rejected)
+                        pass
                 ctx.count('fault-after-clean-check', fname)
             what = inject(b2, rng)
             if what is None:
